@@ -168,7 +168,8 @@ def xswapLine (s : HistState) (t : List String) : Option String :=
     `snap` = the state saved by `H snap` -/
 def xhopLine (cur snap : HistState) (t : List String) : Option String :=
   match t with
-  | [ver, amount, thrMode, ein, d1, d2, lim1, lim2, sw, bI, mI, _fI, bO, mO, _fO] => do
+  | [ver, amount, thrMode, ein, d1, d2, lim1, lim2, sw, bI, mI, _fI, bO, mO, _fO, te] => do
+    let te ← te.toNat?
     let ver ← ver.toNat?
     let amount ← amount.toNat?
     let thrMode ← thrMode.toNat?
@@ -213,6 +214,8 @@ def xhopLine (cur snap : HistState) (t : List String) : Option String :=
       | .ok r, 2 => if ein then min (r.2 + 1) U64_MAX else r.1 - 1
       | _, _ => if ein then 0 else U64_MAX
     if arr1.isEmpty || arr2.isEmpty then pure "err InvalidTickArraySequence" else
+    -- an adaptive-fee pool whose Oracle says trading starts later refuses every swap, alone or as a leg
+    if (te % 2 = 1 && s1.af.isSome) || (te / 2 % 2 = 1 && s2.af.isSome) then pure "err TradeIsNotEnabled" else
     match run thr with
     | .error e => pure ("err " ++ e.name)
     | .ok (r1, r2) =>
